@@ -2,6 +2,8 @@
 // the bus thread (real DirectProtocolHandler::run, real Queue<T>, real sendAndWait/addRequest) under
 // a cooperative scheduler over the hooked pthread operations (C04, thread schedules).
 #include <set>
+#define SANHOOKS_IMPL
+#include "sanhooks.h"
 #include "../busmc/busmon.h"
 #include "../busmc/busworld.h"
 #include "vp_sched.h"
@@ -160,7 +162,6 @@ static std::string caseStr(size_t idx, const vp::Explorer& ex) { return "prop=C0
 static size_t g_curIdx = 0;
 static vp::Explorer* g_curEx = nullptr;
 static bool g_inRun = false;
-extern "C" void __sanitizer_set_death_callback(void (*callback)(void)) __attribute__((weak));
 static void abortWith(const std::string& sig, const std::string& detail) {
   std::string cs = caseStr(g_curIdx, *g_curEx);
   if (g_isReplay) { printf("VIOLATES %s: %s\n", sig.c_str(), detail.c_str()); fflush(stdout); _exit(1); }
@@ -169,10 +170,10 @@ static void abortWith(const std::string& sig, const std::string& detail) {
   R.write(g_out);
   _exit(0);
 }
-static void onSanitizerDeath() {
+static void onSanitizerDeath(const char* which) {
   if (!g_inRun || g_curEx == nullptr) return;
   g_inRun = false;
-  abortWith("C04/memory-error/threads", "AddressSanitizer/UBSan report (use after free, double free ...) in this schedule");
+  abortWith("C04/memory-error/threads", std::string(which) + " report (use after free / after return, double free, invalid object ...) in this schedule: a request was touched after its completion");
 }
 
 static void execute(size_t idx, const SchedScenario& ss, vp::Explorer& e, bool logging) {
@@ -281,7 +282,7 @@ int main(int argc, char** argv) {
   }
   g_tier = A.tier; g_isReplay = A.replay; g_out = A.out;
   R.setDeadline(A);
-  if (__sanitizer_set_death_callback) __sanitizer_set_death_callback(onSanitizerDeath);
+  vp::g_onSanitizerReport = onSanitizerDeath;
   std::vector<SchedScenario> scs = scenarios(A.thorough());
   if (A.replay) {
     if (rsc < 0 || rsc >= (long)scs.size()) { printf("bad scenario\n"); return 2; }
